@@ -75,8 +75,91 @@ func c13Body(r *simcore.Run) {
 			}
 		}
 	}))
+	// a transaction that changes the schema and writes to the new table commits while the
+	// sessions run: from then on every transaction sees the table and its rows as a whole
+	side := map[string]string{}
+	sideLive := false
+	checkSide := func(what string) {
+		rows, err := s.query(nil, "SELECT id, v FROM side")
+		if err != nil {
+			if isBenignTxErr(err) {
+				return
+			}
+			r.Violation("committed-ddl-invisible", "", "%s: the transaction that created table side and inserted into it was committed, a later query of side fails: %v", what, err)
+		}
+		got := map[string]string{}
+		for _, row := range rows {
+			got[row[0]] = row[1]
+		}
+		if fmt.Sprint(got) != fmt.Sprint(side) {
+			r.Violation("committed-ddl-invisible", "rows", "%s: table side holds %v, the committed transactions wrote %v", what, got, side)
+		}
+	}
+	if r.Pct(35) {
+		tasks = append(tasks, r.Sched.Go("ddl-tx", func() {
+			for attempt := 0; attempt < 3 && !sideLive; attempt++ {
+				r.Yield("c13-ddl-tx")
+				tx, err := s.eng.NewTx(r.Ctx(), sql.DefaultTxOptions().WithExplicitClose(true))
+				if err != nil {
+					continue
+				}
+				ok := true
+				for _, q := range []string{"CREATE TABLE side (id INTEGER, v INTEGER, PRIMARY KEY id)", "INSERT INTO side (id, v) VALUES (1, 100)"} {
+					ntx, _, err := s.exec(tx, q)
+					r.Logf("ddl-tx: [tx] %s -> %v", q, err)
+					if err != nil {
+						if !isBenignTxErr(err) {
+							r.Violation("stmt-error", "ddl-tx", "%q failed inside a transaction: %v", q, err)
+						}
+						ok = false
+						break
+					}
+					if ntx != nil {
+						tx = ntx
+					}
+					r.Yield("c13-ddl-tx-open")
+				}
+				if !ok {
+					if !tx.Closed() {
+						tx.Cancel()
+					}
+					continue
+				}
+				err = tx.Commit(r.Ctx())
+				r.Logf("ddl-tx: COMMIT -> %v", err)
+				if err != nil {
+					if !isBenignTxErr(err) {
+						r.Violation("commit-error", "ddl-tx", "COMMIT of the transaction with CREATE TABLE failed: %v", err)
+					}
+					continue
+				}
+				sideLive = true
+				side["1"] = "100"
+				r.Probe("c13-ddl-transaction-committed")
+			}
+			if !sideLive {
+				return
+			}
+			for i := 0; i < 1+r.Intn(4); i++ {
+				r.Yield("c13-ddl-after")
+				checkSide("after the DDL transaction")
+				id := strconv.Itoa(2 + i)
+				q := "INSERT INTO side (id, v) VALUES (" + id + ", " + id + "00)"
+				_, _, err := s.exec(nil, q)
+				r.Logf("ddl-tx: %s -> %v", q, err)
+				if err == nil {
+					side[id] = id + "00"
+				} else if !isBenignTxErr(err) {
+					r.Violation("committed-ddl-invisible", "insert", "%q failed although the transaction that created the table was committed: %v", q, err)
+				}
+			}
+		}))
+	}
 	for _, t := range tasks {
 		t.Join()
+	}
+	if sideLive {
+		checkSide("after the workload")
 	}
 	final, err := s.query(nil, "SELECT id, v FROM acc")
 	if err != nil {
